@@ -54,3 +54,18 @@ package redisemu
 //@ ensures internal [C02] clamp.range: valid == VALUE_EXISTS && !specRangeEmpty(len(str), int(start64), int(end64)) ==> output.data == respBulkString(str[specRangeFrom(len(str), int(start64)) : specRangeLast(len(str), int(end64))+1])
 //@ ensures internal [C02] wrongtype: valid == VALUE_WRONG_TYPE ==> output.data == wrongTypeError
 //@ ensures internal [C02] missing: valid != VALUE_WRONG_TYPE && valid != VALUE_EXISTS ==> output.data == nil
+
+// C07: GETEX changes the deadline only when an expiration option is given
+//@ func fnGetEx
+//@ prop C07
+//@ safetyprop C13
+//@ requires ctx != nil && ctx.dsc != nil && dscOK(ctx.dsc)
+//@ requires [C08,C16] unlocked: !held && lockMode(ctx.dsc)
+//@ requires !mutated && !bumped && !removedKey
+//@ modifies *
+//@ loop 1 invariant !mutated && !held && lockMode(ctx.dsc) && dscOK(ctx.dsc)
+//@ ensures internal [C07] plain.get: valid && !changesExpiry ==> !mutated
+
+//@ func parseArgsWithExpiration
+//@ trusted reads the parsed arguments and the clock; calls the default handler (nil for GETEX) for other arguments
+//@ modifies ghost.now
